@@ -145,7 +145,8 @@ def r_lr(F, res):
             ss = calls(p, "Context::set_span")
             sp = calls(p, "Context::set_position")
             if not (pa and ss and sp):
-                res.anchor_lost(rid, "position_after/set_span/set_position not found in the Shift arm", where)
+                res.missing(rid, "shift/geometry", "LR shift: the Shift arm does not call position_after / set_span / set_position "
+                            "(found: %s)" % [bool(pa), bool(ss), bool(sp)], where)
                 break
             np = ("call", pa[0][1], pa[0][2])
             ok_np = isinstance(pa[0][2][0], tuple) and pa[0][2][0][0] == "field" and pa[0][2][0][2] == "value" and ctx_position(pa[0][2][1])
@@ -327,7 +328,7 @@ def r_glr(F, res):
                 if not (is_call(ln, "Vec::<T, A>::len") and has_call(ln, "children")):
                     res.violation(rid, "build/length", "Tree::build passes %s as the reduction length, expected children.len()" % fmt(ln)[:100], h.loc())
     if n < 2:
-        res.anchor_lost(rid, "shift_action/reduce_action calls in Tree::build_inner not found", h.loc())
+        res.missing(rid, "build/calls", "Tree::build_inner does not replay both shift_action and reduce_action", h.loc())
 
 
 def r_bytes(F, res):
